@@ -203,6 +203,41 @@ def run(tier, seed):
                                    "the working directory no longer exists" if cwd_ else "PYTHONHASHSEED=7"),
                                 {"check": "syntax-env", "text": t, "cwd": cwd_, "seed": seed_})
                     break
+        # the same PATH holding, one after the other, a grammatical text and an ungrammatical one of the same length and the same
+        # modification time (cp -p, archive extraction, two writes within one clock tick): load() must read what the file holds now
+        import os
+        import shutil
+        import tempfile
+        import blackbird
+        d = tempfile.mkdtemp(prefix="bbverif.", dir="/var/tmp")
+        try:
+            pth = os.path.join(d, "prog.xbb")
+            good = "name prog\nversion 1.0\nVac | 0\nMeasureFock() | 0\n"
+            bads = [good.replace("Vac | 0", "| Vac 0"), good.replace("version 1.0", "version = 1"), good.replace("MeasureFock() | 0", "MeasureFock( | 0)")]
+            for bad in bads:
+                assert len(bad) == len(good)
+                for first, second in ((good, bad), (bad, good)):
+                    outs = []
+                    for text in (first, second, first):
+                        with open(pth, "w") as fh:
+                            fh.write(text)
+                        os.utime(pth, (1600000000, 1600000000))
+                        try:
+                            impl.reset_tables()
+                            blackbird.load(pth)
+                            outs.append("ok")
+                        except Exception as e:  # noqa: BLE001
+                            outs.append(type(e).__name__)
+                    want = ["ok" if t is good else "BlackbirdSyntaxError" for t in (first, second, first)]
+                    res.case("file-rewrite:%s:%s" % (bads.index(bad), first is good), True, None)
+                    res.count("file-rewritten-in-place")
+                    if outs != want:
+                        ok = False
+                        res.violate("a file rewritten in place (same length, same modification time): successive load() calls give %s, the texts call for %s" % (outs, want),
+                                    {"check": "file-rewrite", "texts": [first, second, first]})
+                        break
+        finally:
+            shutil.rmtree(d, ignore_errors=True)
         res.oblige("correspondence: syntax-stage verdict = grammar membership, and every ungrammatical string raises BlackbirdSyntaxError at a token not before the first bad one", "correspondence", ok)
         model.close()
     else:
@@ -216,6 +251,27 @@ def run(tier, seed):
 def replay(rep):
     import impl
     from gram import Grammar
+    if rep["input"].get("check") == "file-rewrite":
+        import os
+        import shutil
+        import tempfile
+        import blackbird
+        d = tempfile.mkdtemp(prefix="bbverif.", dir="/var/tmp")
+        outs = []
+        try:
+            for text in rep["input"]["texts"]:
+                with open(os.path.join(d, "prog.xbb"), "w") as fh:
+                    fh.write(text)
+                os.utime(os.path.join(d, "prog.xbb"), (1600000000, 1600000000))
+                try:
+                    blackbird.load(os.path.join(d, "prog.xbb"))
+                    outs.append("ok")
+                except Exception as e:  # noqa: BLE001
+                    outs.append(type(e).__name__)
+        finally:
+            shutil.rmtree(d, ignore_errors=True)
+        print(outs)
+        return 0 if outs[0] == outs[2] and outs[0] != outs[1] else 1
     if rep["input"].get("check") == "syntax-env":
         import subproc
         o = subproc.run_batch([{"kind": "loads", "text": rep["input"]["text"]}], rep["input"]["seed"], rep["input"]["cwd"])[0]
